@@ -184,7 +184,12 @@ def make_pool(variant=None):
                       PixCoord(np.array([2.0, 9.5, 12.0, 30.0]),
                                np.array([3.0, 10.5, 9.0, -4.0])),
                       PixCoord(np.arange(12.0).reshape(3, 4),
-                               np.arange(12.0).reshape(3, 4)[::-1] + 1.5)],
+                               np.arange(12.0).reshape(3, 4)[::-1] + 1.5),
+                      # index grids as users get them: unsigned / narrow ints
+                      PixCoord(np.array([3, 9, 12, 20], dtype=np.uint16),
+                               np.array([4, 10, 9, 2], dtype=np.uint16)),
+                      PixCoord(np.arange(6, dtype=np.int32).reshape(2, 3) + 8,
+                               np.arange(6, dtype=np.int32).reshape(2, 3) + 7)],
             'image': [np.arange(20 * 24, dtype=float).reshape(20, 24),
                       (np.arange(15 * 15).reshape(15, 15) % 7).astype(np.int64)]}
     # persistent mask objects (a leak between calls must be visible)
